@@ -303,6 +303,12 @@ func (c *Ctx) snifferTable(r *fnRef) (map[string]string, string) {
 				if mc, ok := in.(*ssa.MakeClosure); ok {
 					fns = append(fns, mc.Fn.(*ssa.Function))
 				}
+				// a goroutine (or call) of a private function of the package stands for its body
+				if cc := callOf(in); cc != nil {
+					if g := cc.StaticCallee(); g != nil && g.Pkg == fn.Pkg && len(g.Blocks) > 0 && !token.IsExported(g.Name()) && g.Parent() == nil {
+						fns = append(fns, g)
+					}
+				}
 			}
 		}
 		scan := func(in ssa.Instruction) {
@@ -353,6 +359,39 @@ func (c *Ctx) snifferTable(r *fnRef) (map[string]string, string) {
 		}
 	}
 	return tab, def
+}
+
+// regionInstrs visits the instructions of the blocks of a region, of the closures created there
+// and of the private functions of the same package called (or started as goroutines) there.
+func regionInstrs(region map[*ssa.BasicBlock]bool, visit func(ssa.Instruction)) {
+	seen := map[*ssa.Function]bool{}
+	var fnBody func(g *ssa.Function, depth int)
+	var one func(in ssa.Instruction, depth int)
+	one = func(in ssa.Instruction, depth int) {
+		visit(in)
+		if mc, ok := in.(*ssa.MakeClosure); ok {
+			if g, ok := mc.Fn.(*ssa.Function); ok {
+				fnBody(g, depth+1)
+			}
+		}
+		if cc := callOf(in); cc != nil {
+			if g := cc.StaticCallee(); g != nil && in.Parent() != nil && g.Pkg == in.Parent().Pkg && g.Pkg != nil && len(g.Blocks) > 0 && !token.IsExported(g.Name()) && g.Parent() == nil {
+				fnBody(g, depth+1)
+			}
+		}
+	}
+	fnBody = func(g *ssa.Function, depth int) {
+		if seen[g] || depth > 3 {
+			return
+		}
+		seen[g] = true
+		allInstrs(g, func(in ssa.Instruction) { one(in, depth) })
+	}
+	for b := range region {
+		for _, in := range b.Instrs {
+			one(in, 0)
+		}
+	}
 }
 
 func (c *Ctx) checkSniffers() {
@@ -414,14 +453,7 @@ func (c *Ctx) flagChain(fn *ssa.Function, pick func(f *ssa.Function) string) ([]
 				}
 			}
 		}
-		for b := range region {
-			for _, in := range b.Instrs {
-				scan(in)
-				if mc, ok := in.(*ssa.MakeClosure); ok {
-					allInstrs(mc.Fn.(*ssa.Function), scan)
-				}
-			}
-		}
+		regionInstrs(region, scan)
 		return dedupe(out)
 	}
 	var last *ssa.BasicBlock
